@@ -33,6 +33,19 @@ func VerifNew(l log.Logger, nodeInterfaces []string) *Announce {
 	}
 }
 
+// VerifNewQueue builds the announcer field for field as New() does, with the given capacity
+// of the queue towards the gratuitous loop (production: 1024), WITHOUT interfaceScan (no raw
+// sockets). The REAL spamLoop is started by VerifStartSpamLoop: SetBalancer -> doSpam -> spamCh
+// -> spamLoop -> gratuitous is the production code path.
+func VerifNewQueue(l log.Logger, nodeInterfaces []string, capacity int) *Announce {
+	a := VerifNew(l, nodeInterfaces)
+	a.spamCh = make(chan IPAdvertisement, capacity)
+	return a
+}
+
+// VerifStartSpamLoop starts the real spam loop goroutine (it never terminates).
+func (a *Announce) VerifStartSpamLoop() { go a.spamLoop() }
+
 // VerifDrainSpam removes and returns what SetBalancer queued for the spam loop.
 func (a *Announce) VerifDrainSpam() []IPAdvertisement {
 	var out []IPAdvertisement
